@@ -1,3 +1,4 @@
+import Sparrow.Proofs.PipelineEnergy
 import Sparrow.Proofs.Mono
 import Sparrow.Proofs.BakeLemmas
 import Sparrow.Generated.Constants
@@ -76,5 +77,20 @@ example : orderH demo 1 1 0 3 = 6 := by
   rw [orderH_succ, stepF_eq_sum]
   simp [demo, ExScene.arcs, arcsOf, term, orderH_zero, initF]
   norm_num
+
+/-- C03: with non-negative tables, form factors and point-to-patch factors, every bin of every
+    patch histogram and of the mono curve is non-negative. -/
+theorem runPipeline_nonneg
+    (eta thr : ℝ) (room : Room ℝ) (mat : Materials ℝ) (par : RunPar ℝ) (src recv : Vec3 ℝ)
+    (bk : Baked ℝ) (r : RunResult ℝ)
+    (hb : bakeRoom eta room mat = some bk)
+    (hr : runPipeline eta thr room mat par src recv = some r)
+    (hT : ∀ a i o, 0 ≤ mat.table a i o)
+    (hF : ∀ i j, 0 ≤ lookup2 bk.F i j)
+    (hA : ∀ k, k < bk.P → 0 < bk.scene.area k)
+    (hsrc : ∀ k, k < bk.P → 0 ≤ ptSource thr src (fun v => (bk.patch k).pt v) 4)
+    (hrcv : ∀ k, k < bk.P → 0 ≤ ptReceiver thr recv (fun v => (bk.patch k).pt v) 4) :
+    (∀ j d t, 0 ≤ lookup3 r.etc j d t) ∧ (∀ t, 0 ≤ r.mono.getD t 0) :=
+  Sparrow.runPipeline_nonneg eta thr room mat par src recv bk r hb hr hT hF hA hsrc hrcv
 
 end Sparrow.Props.C03
